@@ -31,5 +31,9 @@ func run(e *Env) error {
 	if err := s.CodecCases(e, e.N(700, 3000), e.N(2, 6), 0, false); err != nil {
 		return err
 	}
-	return s.MutationPrograms(e, mutated, []int{3, 2}, e.N(3, 12), e.N(12, 40), e.N(150, 400), e.N(160, 800))
+	if err := s.MutationPrograms(e, mutated, []int{3, 2}, e.N(3, 12), e.N(12, 40), e.N(150, 400), e.N(160, 800)); err != nil {
+		return err
+	}
+	// aliasing: a view made from a Go struct (X.View()) must not share memory with the struct
+	return s.ViewAliasProbes(e, []int{3}, e.N(1, 4))
 }
